@@ -14,7 +14,7 @@ func init() {
 		rule: "selector.Parse on \".\" followed by every string of length ≤ N (N=4 quick, 6 thorough) over the 11-character alphabet . [ ] \" ? : - 0 1 a \\ — i.e. every balanced and unbalanced combination of quotes, brackets, dots and question marks — plus strings that do not start with a dot, mutations of valid selectors and non-ASCII field names; compared: accept/reject, the field-by-field dump of every segment through its exported accessors, and Selector.String(). Added later: every accepted text is also RESOLVED on two probe values (a map with the keys \"\", a, 0, 1 and a list) and compared with the model's parse-then-resolve, so that a segment that keeps its text but changes its kind is seen. Every content of one bracket segment over {\", \\, a} of up to 6 (thorough 7) characters, alone, optional, and between two other segments. Non-trivial = the text contains a quote, a bracket or a question mark. Distinct = distinct protocol lines.",
 		run:  runSelParseStream,
 		eval: evalSelector,
-		cmp:  cmpImplSpec, // the probe lines (sel.select) carry the model's and the specification's answer
+		cmp:  cmpSelParse, // the probe lines (sel.select) carry the model's and the specification's answer
 	})
 }
 
@@ -141,4 +141,44 @@ func checksumTwins(perHash int) [][2]string {
 		}
 	}
 	return out
+}
+
+// selMeaning: the dump of a parsed selector without the text each segment keeps for printing (flags, slice bounds, field
+// name and index of every segment, in order)
+func selMeaning(dump string) string {
+	parts := strings.Split(dump, "/")
+	for i, p := range parts {
+		if j := strings.LastIndexByte(p, ':'); j >= 0 {
+			parts[i] = p[:j]
+		}
+	}
+	return strings.Join(parts, "/")
+}
+
+// cmpSelParse: C14 wants a selector text to be rejected or interpreted in full, and the printed selector to be A text that
+// parses to a selector with the same meaning — not necessarily the text that was read (`.a??` may print as `.a?`). Compared are
+// therefore accept/reject, the meaning of every segment, and — when Go prints another text than the model (which keeps the
+// source text) — that Go's own parser reads the printed text back with the same meaning.
+func cmpSelParse(line, g, m string) string {
+	if !strings.HasPrefix(line, "sel.parse ") {
+		return cmpImplSpec(line, g, m)
+	}
+	if g == m {
+		return ""
+	}
+	gf, mf := strings.Fields(g), strings.Fields(m)
+	if len(gf) != 3 || len(mf) != 3 || gf[0] != "ok" || mf[0] != "ok" {
+		return "go≠model"
+	}
+	if selMeaning(gf[1]) != selMeaning(mf[1]) {
+		return "go≠model"
+	}
+	if gf[2] == mf[2] {
+		return "" // only the text kept per segment differs
+	}
+	back := strings.Fields(goParseSel(unhx(gf[2])))
+	if len(back) != 3 || back[0] != "ok" || selMeaning(back[1]) != selMeaning(gf[1]) {
+		return "the printed selector does not parse back to a selector with the same meaning"
+	}
+	return ""
 }
